@@ -252,6 +252,21 @@ func applyAlias(node *CandidateNode, alias *CandidateNode, aliasIndex int, newCo
 		keyNode := alias.Content[index]
 		log.Debugf("applying alias key %v", keyNode.Value)
 		valueNode := alias.Content[index+1]
+		if keyNode.Value == "<<" {
+			// the merged-in map merges other maps itself (and has not been exploded yet)
+			var err error
+			if valueNode.Kind == SequenceNode {
+				for nested := len(valueNode.Content) - 1; nested >= 0 && err == nil; nested = nested - 1 {
+					err = applyAlias(node, valueNode.Content[nested].Alias, aliasIndex, newContent)
+				}
+			} else {
+				err = applyAlias(node, valueNode.Alias, aliasIndex, newContent)
+			}
+			if err != nil {
+				return err
+			}
+			continue
+		}
 		err := overrideEntry(node, keyNode, valueNode, aliasIndex, newContent)
 		if err != nil {
 			return err
